@@ -214,6 +214,34 @@ func cmdCheck(argv []string) int {
 	} else {
 		defer os.RemoveAll(scratch)
 	}
+	// several packages share a package name (arrow, otlp): a unit whose short
+	// name is already taken is renamed with its parent directory
+	taken := map[string]bool{}
+	for _, u := range units {
+		if !taken[u.Name] {
+			taken[u.Name] = true
+			continue
+		}
+		path := fnPkgPath(u.Fn)
+		parts := strings.Split(path, "/")
+		nn := u.Name
+		if len(parts) >= 2 {
+			nn = parts[len(parts)-2] + "/" + u.Name
+		}
+		for k := 2; taken[nn]; k++ {
+			nn = fmt.Sprintf("%s~%d", u.Name, k)
+		}
+		taken[nn] = true
+		if u.VC != nil {
+			for _, o := range u.VC.obligations {
+				if strings.HasPrefix(o.Name, u.Name) {
+					o.Name = nn + o.Name[len(u.Name):]
+				}
+				o.Func = nn
+			}
+		}
+		u.Name = nn
+	}
 	var obls []*Obligation
 	assumedSet := map[string]bool{}
 	for _, u := range units {
